@@ -4,16 +4,20 @@
 
 #include "awkward/kernels.h"
 
+#include <cmath>
+
 template <typename T>
-bool order_ascending(T left, T right)
+bool quick_sort_order_ascending(T left, T right)
 {
-  return left <= right;
+  return std::isnan(static_cast<double>(left))  ||
+         (!std::isnan(static_cast<double>(right))  &&  left <= right);
 }
 
 template <typename T>
-bool order_descending(T left, T right)
+bool quick_sort_order_descending(T left, T right)
 {
-  return left >= right;
+  return std::isnan(static_cast<double>(left))  ||
+         (!std::isnan(static_cast<double>(right))  &&  left >= right);
 }
 
 template <typename T>
@@ -101,7 +105,7 @@ ERROR awkward_quick_sort(
                      tmpbeg,
                      tmpend,
                      maxlevels,
-                     order_ascending<T>) < 0) {
+                     quick_sort_order_ascending<T>) < 0) {
         return failure("failed to sort an array", i, fromstarts[i], FILENAME(__LINE__));
       }
     }
@@ -113,7 +117,7 @@ ERROR awkward_quick_sort(
                      tmpbeg,
                      tmpend,
                      maxlevels,
-                     order_descending<T>) < 0) {
+                     quick_sort_order_descending<T>) < 0) {
         return failure("failed to sort an array", i, fromstarts[i], FILENAME(__LINE__));
       }
     }
